@@ -51,6 +51,17 @@ CLAIMS = {
              "script without them; its accept/reject pattern and the number of active assertions per check must match the "
              "machine. Partial: declarations, define-fun and option commands are not among the inserted commands.",
         design_ref="5 C19"),
+    "C22": dict(
+        technique="Lean 4 proof (LA and EUF clause kernels: a certified clause is valid, so its negated literals are jointly unsatisfiable) tied by certification of every verdict of the theory solvers on random assert / check / backtrack sequences",
+        text="Theorems: C22_conflict_certified and C22_consistency_refuted (from laClauseCheck_sound / eufClauseCheck_sound): a set "
+             "of asserted literals whose clause of negations passes a kernel has no model. Tie: a harness linked against the current "
+             "tree drives LASolver (reals and integers), IDLSolver, RDLSolver and the E-graph through random sequences of "
+             "declare / assert / check / backtrack operations (half of them in the engine's protocol, where every assertion is "
+             "followed by a check); every reported inconsistency must consist of currently asserted literals and be certified "
+             "by a kernel; every `consistent` verdict of a complete check is attacked by the certificate producers and is a "
+             "violation when a kernel certifies the asserted literals inconsistent. Partial: consistency verdicts are only "
+             "refuted, not confirmed; the array solver is not driven.",
+        design_ref="5 C22"),
     "C28": dict(
         technique="Lean 4 proof (hash-consed store: interning is idempotent, identities are stable and injective, arguments are older, commutative symbols order-insensitive) tied by differential construction sequences through the Logic API",
         text="Theorems over every store reachable from the empty one and every node: building a node twice returns the same "
